@@ -173,6 +173,21 @@ func (e *poolEngine) step(ws []string) string {
 				use = append(use, hs[i])
 			}
 			e.batches = e.batches[1:]
+		case strings.HasPrefix(mode, "last:"): // the last j hashes of the oldest batch (a partial notification that skips the lower nonces)
+			j, _ := strconv.Atoi(mode[5:])
+			if j >= len(hs) {
+				use = hs
+				e.batches = e.batches[1:]
+			} else {
+				use = hs[len(hs)-j:]
+				e.batches[0] = hs[:len(hs)-j]
+			}
+		case mode == "second": // the second-oldest batch first (notifications of two batches arriving in reverse order)
+			if len(e.batches) < 2 {
+				return "nobatch"
+			}
+			use = e.batches[1]
+			e.batches = append([][]string{e.batches[0]}, e.batches[2:]...)
 		case strings.HasPrefix(mode, "first:"):
 			j, _ := strconv.Atoi(mode[6:])
 			if j > len(hs) {
